@@ -150,6 +150,8 @@ Allowed(e) ==
          /\ IF e.be \in {"libm", "std"} THEN RigidOK(e.M)
             ELSE \A i \in 1..3, j \in 1..3 :
                    Near((e.M[i][1] * e.M[j][1] + e.M[i][2] * e.M[j][2] + e.M[i][3] * e.M[j][3]) \div SC, IF i = j THEN SC ELSE 0, SC \div 50)
+    \* the default first-person camera (as constructed, or moved): rigid, its own position goes to the origin
+    [] e.op = "fpd" -> e.panic = 0 /\ RigidOK(e.M) /\ \A i \in 1..3 : Near(e.ipos[i], 0, 24)
     [] e.op = "fpmove" ->
          \* heading azimuth with (cos, sin) = (cx, sz) / kd: forward = (cx, 0, sz) / kd, right = up x forward = (sz, 0, -cx) / kd
          /\ e.panic = 0
